@@ -641,6 +641,61 @@ impl Configuration {
             State::US915(s) => fixp!(s),
         }
     }
+
+    /// verification hook (read-only): the region's constant tables as the compiled code sees them
+    /// (data rates, RX2 default, accepted RX1 offsets, TX power steps, fixed-plan channel maps and
+    /// join data rates) and the protocol constants of `constants.rs`
+    pub fn verif_tables(&self) -> std::string::String {
+        use std::format;
+        use std::string::String;
+        use std::vec::Vec;
+        fn join<T: core::fmt::Display>(v: impl Iterator<Item = T>) -> String {
+            v.map(|x| format!("{}", x)).collect::<Vec<_>>().join(",")
+        }
+        let drs = join((0..16u8).map(|d| match self.get_datarate(d) {
+            Some(d) => format!(
+                "{}/{}/{}",
+                d.spreading_factor.factor(),
+                d.bandwidth.hz(),
+                d.max_mac_payload_size
+            ),
+            None => String::from("-"),
+        }));
+        let offs = join((0..8u8).filter(|v| self.rx1_dr_offset_validate(*v).is_some()));
+        let pws = join((0..16u8).map(|p| match region_dispatch!(self, check_tx_power, p) {
+            Some(v) => format!("{}", v),
+            None => String::from("-"),
+        }));
+        let fixed = match &self.state {
+            #[cfg(feature = "region-au915")]
+            State::AU915(s) => s.0.verif_tables(),
+            #[cfg(feature = "region-us915")]
+            State::US915(s) => s.0.verif_tables(),
+            #[allow(unreachable_patterns)]
+            _ => String::new(),
+        };
+        format!(
+            "consts={},{},{},{},{},{},{},{} dr={} rx2={} off={} pw={}{}",
+            constants::RECEIVE_DELAY1,
+            constants::JOIN_ACCEPT_DELAY1,
+            constants::JOIN_ACCEPT_DELAY2,
+            constants::MAX_FCNT_GAP,
+            constants::ADR_ACK_LIMIT,
+            constants::ADR_ACK_DELAY,
+            constants::NUM_DATARATES,
+            constants::NUM_CHANNELS_DYNAMIC,
+            drs,
+            self.get_rx2_frequency(),
+            offs,
+            pws,
+            fixed
+        )
+    }
+
+    /// verification hook (read-only): the region's frequency range check
+    pub fn verif_frequency_valid(&self, f: u32) -> bool {
+        self.frequency_valid(f)
+    }
 }
 
 #[cfg(test)]
